@@ -272,9 +272,9 @@ func (vfs *MemFS) createSymlink(parent *dirNode, name, link string) *symlinkNode
 	return child
 }
 
-// renameSeqNow returns the number of entries moved by Rename (or symbolic links removed) so far.
+// renameSeqNow returns the number of entries moved by Rename or removed so far.
 // A call reads it before its path walks and again once it holds its locks :
-// if an entry has been moved in between, the paths may no longer lead to what the walks found.
+// if an entry has been moved or removed in between, the paths may no longer lead to what the walks found.
 func (vfs *MemFS) renameSeqNow() uint64 {
 	return atomic.LoadUint64(vfs.renameSeq)
 }
